@@ -186,7 +186,18 @@ def parse_bytes_keepcfg(uni, clazz, data: bytes, handler, config):
     full = {k: config.get(k, getattr(dflt, k)) for k in FLAGS}
     cfg = ParserConfig(**full)
     h = XmlEventHandler if handler == "native" else LxmlEventHandler
-    p = XmlParser(context=XmlContext(models_package=uni.modname), config=cfg, handler=h)
+    # The judged parse runs on a context that has already read the same bytes with every
+    # fail_on_* option off: the options of *this* call decide, not what an earlier, more
+    # tolerant call on the shared context saw (a seeded change remembered unknown names on the
+    # binding metadata during a lenient parse and skipped them silently afterwards).
+    ctx = XmlContext(models_package=uni.modname)
+    with warnings.catch_warnings():
+        warnings.simplefilter("ignore")
+        try:
+            XmlParser(context=ctx, config=ParserConfig(**{k: False for k in FLAGS}), handler=h).from_bytes(data, uni.classes[clazz])
+        except Exception:  # noqa: BLE001, S110
+            pass
+    p = XmlParser(context=ctx, config=cfg, handler=h)
     with warnings.catch_warnings(record=True) as w:
         warnings.simplefilter("always")
         try:
